@@ -37,9 +37,10 @@ def split(cargo_ver: str) -> T.Iterable[tuple[str, str]]:
             yield ver[0:2], ver[2:].lstrip()
         elif ver.startswith(('~', '=', '^', '>', '<')):
             yield ver[0], ver[1:].lstrip()
-        elif ver.endswith(('.*', '.x', '.X')):
+        elif ver.endswith(('.*', '.x', '.X')) and '-' not in ver and '+' not in ver:
             # asterisk requirements are same as tilde: 1.* == ~1, 1.*.* == ~1
-            # (the semver crate reads 'x' and 'X' like '*')
+            # (the semver crate reads 'x' and 'X' like '*'; an identifier 'x' of a
+            # pre-release or of build metadata is no wildcard)
             # https://doc.rust-lang.org/cargo/reference/specifying-dependencies.html#wildcard-requirements
             while ver.endswith(('.*', '.x', '.X')):
                 ver = ver[:-2]
